@@ -316,6 +316,44 @@ inline GeomDef tri_subset_mesh(int W, int H, int diag, uint64_t mask, bool int_p
   return g;
 }
 
+// W x H cell grid from which the cells of the |rank|-th set of at most K cells (sets ordered by size, then lexicographically)
+// are removed: several holes at every mutual position, holes touching the border, holes touching each other in a corner.
+inline uint64_t binom(int n, int k) {
+  if (k < 0 || k > n) return 0;
+  uint64_t r = 1;
+  for (int i = 1; i <= k; ++i) r = r * (n - k + i) / i;
+  return r;
+}
+inline uint64_t removed_cell_sets(int cells, int K) {
+  uint64_t t = 0;
+  for (int k = 0; k <= K; ++k) t += binom(cells, k);
+  return t;
+}
+inline std::vector<int> unrank_cell_set(int cells, int K, uint64_t rank) {
+  int k = 0;
+  while (k <= K && rank >= binom(cells, k)) rank -= binom(cells, k++);
+  std::vector<int> out;
+  int next = 0;
+  for (int i = 0; i < k; ++i) {
+    for (int c = next; c < cells; ++c) {
+      const uint64_t with_c = binom(cells - c - 1, k - i - 1);
+      if (rank < with_c) {
+        out.push_back(c);
+        next = c + 1;
+        break;
+      }
+      rank -= with_c;
+    }
+  }
+  return out;
+}
+inline uint64_t grid_minus_cells_mask(int W, int H, int K, uint64_t rank) {
+  // triangle mask for tri_subset_mesh (needs 2*W*H <= 64)
+  uint64_t mask = 2 * W * H >= 64 ? ~0ull : (1ull << (2 * W * H)) - 1;
+  for (int c : unrank_cell_set(W * H, K, rank)) mask &= ~(3ull << (2 * c));
+  return mask;
+}
+
 inline int stream_geometry_type(const Bytes &b) { return b.size() > 7 ? b[7] : -1; }
 inline int stream_method(const Bytes &b) { return b.size() > 8 ? b[8] : -1; }
 
